@@ -19,8 +19,8 @@ SIM_Q = dict(NH=3, MAXR=7, MAXRD=5, MAXBL=4, DS="{0, 3}", NPROBE=3, MAXPL=5, CHK
 CONST_CHECK_T = dict(NH=2, MAXR=5, MAXRD=4, MAXBL=3, DS="{0, 2}", NPROBE=1, MAXPL=3, CHKPL=3, UNIQ="FALSE")
 GEN_T = dict(NH=3, MAXR=4, MAXRD=3, MAXBL=4, DS="{0, 2}", NPROBE=3, MAXPL=4, CHKPL=1, UNIQ="FALSE")
 UNIQ_Q = dict(NH=3, MAXR=3, MAXRD=1, MAXBL=3, DS="{0}", NPROBE=8, MAXPL=5, CHKPL=2, UNIQ="TRUE")
-UNIQ_T = dict(NH=5, MAXR=5, MAXRD=1, MAXBL=3, DS="{0}", NPROBE=3, MAXPL=6, CHKPL=2, UNIQ="TRUE")
-SIM_T = dict(NH=4, MAXR=9, MAXRD=6, MAXBL=5, DS="{0, 3}", NPROBE=4, MAXPL=6, CHKPL=1, UNIQ="FALSE")
+UNIQ_T = dict(NH=4, MAXR=4, MAXRD=1, MAXBL=3, DS="{0}", NPROBE=4, MAXPL=5, CHKPL=2, UNIQ="TRUE")
+SIM_T = dict(NH=4, MAXR=9, MAXRD=6, MAXBL=5, DS="{0, 3}", NPROBE=4, MAXPL=5, CHKPL=1, UNIQ="FALSE")
 
 
 def cfg_text(c, invs):
